@@ -294,7 +294,12 @@ func VerifC10_CovarianceMatrix() {
 		}
 		return v
 	}
+	// destination state: zero value, or a correctly sized matrix holding
+	// arbitrary earlier contents (documented: "the result is stored in-place")
 	var cov mat.SymDense
+	if verifChoose("dst", 0, 1) == 1 {
+		cov = *mat.NewSymDense(c, verifFloats("old", c*c))
+	}
 	CovarianceMatrix(&cov, x, w)
 	verifAssert(cov.SymmetricDim() == c, "dimension")
 	for i := 0; i < c; i++ {
@@ -311,6 +316,9 @@ func VerifC10_CovarianceMatrix() {
 		verifAssert(cov.At(0, 0)*cov.At(1, 1)-cov.At(0, 1)*cov.At(0, 1) >= 0, "non-negative determinant (PSD)")
 		verifAssume(verifAnd(cov.At(0, 0) > 0, cov.At(1, 1) > 0))
 		var cor mat.SymDense
+		if verifChoose("cordst", 0, 1) == 1 {
+			cor = *mat.NewSymDense(c, verifFloats("oldcor", c*c))
+		}
 		CorrelationMatrix(&cor, x, w)
 		verifAssertEqF(cor.At(0, 0), 1, "unit diagonal")
 		verifAssertEqF(cor.At(1, 1), 1, "unit diagonal")
